@@ -33,6 +33,7 @@ type facts struct {
 	EventFormats    []string          `json:"event_formats"`
 	IDEscapeFn      string            `json:"id_escape_fn"`
 	SysFlags        map[string]bool   `json:"sys_flags"`
+	CloseWalksAll   bool              `json:"close_walks_all"`
 	LegacyFlags     map[string]bool   `json:"legacy_flags"`
 	Consts          map[string]string `json:"consts"`
 	Errors          []string          `json:"errors"`
@@ -150,7 +151,9 @@ func keySeg(e ast.Expr, selName, topicName string) seg {
 	return seg{Kind: "unknown"}
 }
 
-func (fa *facts) errf(format string, a ...any) { fa.Errors = append(fa.Errors, fmt.Sprintf(format, a...)) }
+func (fa *facts) errf(format string, a ...any) {
+	fa.Errors = append(fa.Errors, fmt.Sprintf(format, a...))
+}
 
 func (fa *facts) matchKey(repo string) {
 	f := parse(repo, "topicselector.go")
@@ -417,9 +420,10 @@ func isCall2(n ast.Node, pkg, fn string) (*ast.CallExpr, bool) {
 }
 
 // escapeKind classifies an expression applied to the string being escaped:
-//   url.QueryEscape(x)                                   -> "url.QueryEscape"        (space -> '+')
-//   strings.ReplaceAll(url.QueryEscape(x), "+", "%20")   -> "url.QueryEscape;+=%20"  (space -> %20)
-//   helper(x) where helper's body returns one of those    -> that
+//
+//	url.QueryEscape(x)                                   -> "url.QueryEscape"        (space -> '+')
+//	strings.ReplaceAll(url.QueryEscape(x), "+", "%20")   -> "url.QueryEscape;+=%20"  (space -> %20)
+//	helper(x) where helper's body returns one of those    -> that
 func escapeKind(f *ast.File, e ast.Expr, depth int) string {
 	if c, ok := isCall(e, "url", "QueryEscape"); ok && len(c.Args) == 1 {
 		return "url.QueryEscape"
@@ -618,6 +622,59 @@ func (fa *facts) sysFlags(repo string) {
 		fa.errf("bolt.go: dispatchHistory not found")
 	}
 	fa.SysFlags = fl
+	// Close (both transports): the walk over the subscriber list must visit every subscriber — the callback
+	// given to Walk is a function literal whose every return is the constant true (Walk stops on false).
+	walksAll := true
+	for _, c := range []struct {
+		f    *ast.File
+		recv string
+	}{{lo, "LocalTransport"}, {bo, "BoltTransport"}} {
+		fd := funcDecl(c.f, c.recv, "Close")
+		if fd == nil {
+			fa.errf("%s.Close not found", c.recv)
+			walksAll = false
+
+			continue
+		}
+		found := false
+		ast.Inspect(fd, func(n ast.Node) bool {
+			call, ok := n.(*ast.CallExpr)
+			if !ok {
+				return true
+			}
+			sel, ok := call.Fun.(*ast.SelectorExpr)
+			if !ok || sel.Sel.Name != "Walk" || len(call.Args) != 2 {
+				return true
+			}
+			found = true
+			lit, ok := call.Args[1].(*ast.FuncLit)
+			if !ok {
+				walksAll = false
+
+				return true
+			}
+			rets := 0
+			ast.Inspect(lit.Body, func(m ast.Node) bool {
+				if r, ok := m.(*ast.ReturnStmt); ok {
+					rets++
+					if len(r.Results) != 1 || exprString(r.Results[0]) != "true" {
+						walksAll = false
+					}
+				}
+
+				return true
+			})
+			if rets == 0 {
+				walksAll = false
+			}
+
+			return true
+		})
+		if !found {
+			walksAll = false
+		}
+	}
+	fa.CloseWalksAll = walksAll
 }
 
 // legacyFlags: shape of config.go's ValidateConfig / NewHubFromViper.
@@ -712,6 +769,7 @@ func (fa *facts) lean() string {
 	fmt.Fprintf(&b, "def idEscapeFn : String := %q\n", fa.IDEscapeFn)
 	fmt.Fprintf(&b, "def sysFlags : Mercure.Sys.Flags := ⟨%v, %v, %v, %v, %v, %v⟩\n", fa.SysFlags["closeOnOverflow"], fa.SysFlags["readyGuard"],
 		fa.SysFlags["disconnectRecheck"], fa.SysFlags["localMatchLocked"], fa.SysFlags["lastSeqOnOpen"], fa.SysFlags["cutBeforeDispatch"])
+	fmt.Fprintf(&b, "def closeWalksAll : Bool := %v\n", fa.CloseWalksAll)
 	fmt.Fprintf(&b, "def legacyFlags : Mercure.Config.LegacyFlags := ⟨%v, %v⟩\n", fa.LegacyFlags["requireSubscriberKey"], fa.LegacyFlags["zeroMeansDisabled"])
 	fmt.Fprintf(&b, "def extractionErrors : Nat := %d\n", len(fa.Errors))
 	b.WriteString("end Mercure.Facts\n")
